@@ -25,7 +25,7 @@ import copy
 import json
 
 from harness import compat  # noqa: F401  (must precede flax)
-from harness.common import LeanDriver, load_corpus, InfraError
+from harness.common import LeanDriver, load_corpus, load_findings, InfraError
 
 import numpy as np
 import jax
@@ -68,7 +68,12 @@ SPEC = {
     'cond / switch / fori_loop / while_loop reject structure changes (StructureMismatch), cached_partial rejects them (cacheMutated): for those the oracle checks the rejection and that accepted calls equal eager',
     'cached_partial runs the function on clones of the cached graph nodes that share the caller\'s Variables: returned graph nodes are clones (only value updates and array results are compared)',
   ],
-  'model_partial': [],
+  'model_partial': [
+    'cond_switch_refine / cond_refine / loops_refine_unrolled / while_refines_unrolled are stated for calls the transform ACCEPTS (both the call under the transform and the eager run succeed); the unconditional "fails exactly when the body fails" form (no failure mode of its own on closed heaps) is proved for jit and remat only (jit_total, remat_total). NOT proved in Lean: that cond / switch / loops reject ONLY structure changes; tied by correspondence (rejections are compared with the model, and an accepted call with the eager run).',
+    'loops_refine_unrolled / while_refines_unrolled assume distinct attribute keys (AttrsNodup: a fact about Python dicts) and, for while_loop, a predicate built from reads only.',
+    'cached_partial_detects: the model keeps the observable contract of nnx.cached_partial (run jit(f), demand final graphdef == graphdef.with_same_outer_index() for the cached arguments, propagate Variable updates). NOT modelled: the StaticCache fast paths themselves (cached graphdef / Variable list / fingerprint indices) and that the function runs on CLONES of the cached graph nodes (a returned graph node is a clone, not the caller\'s object); tied by correspondence on value-only bodies returning arrays.',
+    'refinement theorems compare everything reachable from (arguments, results) AFTER the call; the state of a caller object that the function detached from the arguments is outside the statement (and is in fact not updated by the transforms).',
+  ],
 }
 
 # ------------------------------------------------------------------------------------------------
@@ -1199,15 +1204,116 @@ def _norm_case(obj):
   return case
 
 
+PROBES = [
+  # (key, what, case): inputs on which the implementation is known to fail; outside the generated domain
+  (
+    'cached-partial-bare-variable-arg',
+    "nnx.cached_partial(f, v) with a bare nnx.Variable as cached argument raises RuntimeError('Unsupported type ... this is a bug') "
+    '(create_static_cache accepts Variables, graph.fingerprint does not); eagerly and under nnx.jit the same call works',
+    {'G': {'heap': [{'vt': VT_MRO['Param'], 'val': 3, 'md': []}]},
+     'spec': {'kind': 'cached_partial', 'fn': {'body': [{'op': 'readVar', 'r': 0}, {'op': 'setVar', 'r': 0, 'e': {'add': [{'r': 1}, {'c': 1}]}}], 'ret': [1]}},
+     'steps': [{'call': [{'r': 0}]}]},
+  ),
+  (
+    'cached-partial-array-attribute',
+    'nnx.cached_partial on a graph node that has an array attribute raises AttributeError (StaticCache.variables holds the raw array; '
+    'documented TODO in graph.py: "support Array attribute updates for graph nodes")',
+    {'G': {'heap': [{'cls': 'A', 'attrs': [['x', {'a': 1}], ['w', {'r': 1}]]}, {'vt': VT_MRO['Param'], 'val': 3, 'md': []}]},
+     'spec': {'kind': 'cached_partial', 'fn': {'body': [{'op': 'getAttr', 'r': 0, 'k': 'w'}, {'op': 'readVar', 'r': 1}], 'ret': [2]}},
+     'steps': [{'call': [{'r': 0}]}]},
+  ),
+]
+
+
+def _probe_detached():
+  """`c = m.c; c.w.value += 1; del m.c`: eager Python updates the detached object, nnx.jit does not"""
+  A = NODE_CLASSES['A']
+
+  def mk():
+    m = A()
+    m.c = A()
+    m.c.w = nnx.Param(arr(1))
+    return m
+
+  def f(m):
+    c = m.c
+    c.w.value = c.w.value + 1
+    del m.c
+
+  m = mk()
+  c0 = m.c
+  f(m)
+  eager = data_of(c0.w.raw_value)
+  m = mk()
+  c0 = m.c
+  nnx.jit(f)(m)
+  return eager != data_of(c0.w.raw_value)
+
+
+def _probe_metadata():
+  """`m.w.tag = 'x'` inside the function: kept eagerly and under remat, dropped by nnx.jit (raw leaves)"""
+  A = NODE_CLASSES['A']
+
+  def mk():
+    m = A()
+    m.w = nnx.Param(arr(1))
+    return m
+
+  def g(m):
+    m.w.tag = 'x'
+
+  m = mk()
+  g(m)
+  eager = dict(m.w.get_metadata())
+  m = mk()
+  nnx.jit(g)(m)
+  return eager != dict(m.w.get_metadata())
+
+
+DIRECT_PROBES = [
+  ('detached-object-update-lost', 'an object of the caller that the function detaches from its arguments (c = m.c; c.w.value += 1; del m.c) keeps its old state under nnx.jit although eager Python updates it (the outer merge never sees it)', _probe_detached),
+  ('jit-variable-metadata-edit-lost', 'editing the metadata of an existing Variable inside the function (m.w.tag = "x") is propagated eagerly and by remat / cond (VariableState leaves) but dropped by nnx.jit (raw leaves: make_variable only assigns raw_value)', _probe_metadata),
+]
+
+
+def run_probes(ctx):
+  """Inputs excluded from the generators because the implementation fails on them. A probe whose key is registered in
+  known_findings.json is reported through the normal channel (KNOWN-FINDING); otherwise it is recorded in the evidence as a
+  candidate finding (never a verdict: the generated domain excludes it)."""
+  known = {e.get('key') for e in load_findings('C04') if e.get('status') == 'finding'}
+  out = []
+  for key, what, case in PROBES:
+    case = dict(case, kind='history')
+    ie, _ = run_impl(case, eager=True)
+    it, _ = run_impl(case, eager=False)
+    fails = ie[0]['res'] == 'ok' and it[0]['res'] == 'err'
+    out.append({'key': key, 'still_fails': fails, 'transform_outcome': it[0].get('etype') or it[0]['res']})
+    ctx.count('probes', f'{key}:{"fails" if fails else "passes"}')
+    if fails and key in known:
+      ctx.violation(key, what, case, concrete=True)
+  for key, what, fn in DIRECT_PROBES:
+    try:
+      fails = bool(fn())
+      outcome = 'differs' if fails else 'same'
+    except Exception as e:
+      fails, outcome = True, type(e).__name__
+    out.append({'key': key, 'still_fails': fails, 'transform_outcome': outcome})
+    ctx.count('probes', f'{key}:{"fails" if fails else "passes"}')
+    if fails and key in known:
+      ctx.violation(key, what, {'probe': key}, concrete=True)
+  ctx.extra['candidate_findings'] = out
+
+
 def run(ctx):
   drv = LeanDriver('drv_c04')
+  run_probes(ctx)
   thorough = ctx.tier == 'thorough'
   rng = ctx.rng
   corpus = [_norm_case(obj) for _, obj in load_corpus('C04')]
   ctx.corpus_replayed += len(corpus)
   if corpus:
     check_cases(ctx, drv, corpus, 'corpus')
-  n_cases = 150 if not thorough else 4000
+  n_cases = 450 if not thorough else 4000
   cases = []
   budget_calls = 0
   for _ in range(n_cases):
